@@ -13,6 +13,8 @@ explicit `times` partition) so that solver.run_scenario / reference_F / scenario
   long_history   10-16 short update calls
   uneven         random partition including one interval 1e-6 of the span
   round_trip     forward over the partition and back again (F must return to the supplied one)
+  closed_orbit   position-dependent L along a pathline that is back at its starting point at the end of EVERY update interval
+                 (one full orbit per update) although the particle moves in between
 """
 from __future__ import annotations
 
@@ -21,7 +23,7 @@ import numpy as np
 from . import impl
 from . import solver
 
-FAMILIES = ["far_origin", "si_units", "reversed", "aligned_pulse", "long_history", "uneven", "round_trip"]
+FAMILIES = ["far_origin", "si_units", "reversed", "aligned_pulse", "long_history", "uneven", "round_trip", "closed_orbit"]
 
 
 def make(rng, k, family, nmax=8, regimes=(4, 6)):
@@ -56,6 +58,16 @@ def make(rng, k, family, nmax=8, regimes=(4, 6)):
         sc["t0"] = 0.0
         sc["field"] = solver.LField(L0, pulse_P=P, L3=float(rng.uniform(1.0, 2.0)) * impl.make_L("general", rng))
         sc["times"] = (2 * P * np.arange(n + 1)).tolist()
+    elif family == "closed_orbit":
+        # x(t) = x0 + a (1 - cos(W t)) + b sin(W t), v = 0: get_position(time_start) == get_position(time_end) for every update
+        # interval [jT, (j+1)T], T = 2 pi / W, while L(x(t)) varies by O(1) along the orbit
+        n = min(n, 2)
+        T = float(rng.uniform(0.3, 0.8))
+        f0 = sc["field"]
+        sc["t0"] = 0.0
+        sc["field"] = solver.LField(f0.L0, Mx=0.6 * rng.normal(size=(3, 3, 3)), x0=rng.normal(size=3), v=np.zeros(3),
+                                    orb_a=rng.normal(size=3), orb_b=rng.normal(size=3), orb_w=2 * np.pi / T)
+        sc["times"] = (T * np.arange(n + 1)).tolist()
     elif family == "long_history":
         n = int(rng.integers(10, 17))
         sc["n_updates"] = n
